@@ -15,8 +15,9 @@ from vcommon import (Report, model_check, model_check_expect_violation, validate
 HOSTED_SETS = [[1], [1, 2], [0, 1], [1, 255], [0], [247, 3]]
 
 
-def unit_ctx(uid, zero=1):
-    return dm.layout(zero, dm.seq_block(0, 40, uid % 2), dm.seq_block(0, 40, 1), dm.seq_block(0, 40, (uid * 7) % 100), dm.seq_block(0, 40, 3))
+def unit_ctx(uid, zero=1, small=False):
+    n = 12 if small else 40
+    return dm.layout(zero, dm.seq_block(0, n, uid % 2), dm.seq_block(0, n, 1), dm.seq_block(0, n, (uid * 7) % 100), dm.seq_block(0, n, 3))
 
 
 def make_units(cfg, omit=()):
@@ -255,6 +256,8 @@ def gen_c09(tier, rng):
         case.schedule = schedule_for(case, fe, rng, rng.choice(["frames", "frames", "whole", "random"]))
         if fe == "syncTcp" and k % 2 == 0:
             case.schedule = add_idle(case, schedule_for(case, fe, rng, "random"), rng)
+        if fe == "syncSerial" and k % 2 == 0:
+            case.schedule = add_idle(case, case.schedule, rng)      # idle gaps longer than the port's read time-out, between frames
         pr = build_frames(kind, [(cfg["hosted"][0], 77, dm.pdu_read(3, 0, 2))])[0]
         traces.append(run_case(case, probe=None))
     # TLC-generated behaviours of ServerMC replayed into the stream front-ends
@@ -343,6 +346,21 @@ def gen_c10(tier, rng):
                         case.schedule = schedule_for(case, fe, rng, "frames")
                         traces.append(run_case(case))
                         k += 1
+    # units of different sizes: a broadcast write that one unit must refuse (address beyond its table) still reaches the units that
+    # can take it, whatever the order in which the units are registered
+    for fe, kind in pairs:
+        if not D.FRONTENDS[fe].supports_broadcast:
+            continue
+        for hosted in ([2, 1], [1, 2], [2, 3, 4]):
+            cfg = {"single": 0, "hosted": hosted, "broadcast": 1, "ignore": k % 2}
+            units = [[u, unit_ctx(u, small=(u % 2 == 0))] for u in hosted]
+            case = Case("w%d" % k, "strict", fe, kind, cfg, units)
+            reqs = [(0, 31, dm.pdu_w1(6, 30, 4000 + k % 100)), (0, 32, dm.pdu_wn(15, 20, 3, 1, [5])), (0, 33, dm.pdu_w1(6, 3, 77))]
+            reqs += [(h, 40 + i, dm.pdu_read(3, 3, 1)) for i, h in enumerate(hosted)]
+            case.add_conn(build_frames(kind, reqs))
+            case.schedule = schedule_for(case, fe, rng, "frames")
+            traces.append(run_case(case))
+            k += 1
     # every front-end with unit 0 hosted (alone and beside unit 1), broadcast on: a write to unit 0 is a broadcast (all units, no
     # answer), unit 255 is just another unit id
     for fe, kind in pairs:
@@ -534,6 +552,10 @@ def gen_c17(tier, rng):
             c = rng.random()
             p = rand_request(rng, allow_other=False) if c < 0.85 else (bytes([43, 14, 1, 0]) if c < 0.95 else bytes([43, 14, 0, 0]))
             reqs.append((u, rng.randint(1, 65535), p))
+        if k % 10 == 7:
+            # Force Listen Only Mode as the very last request: every front-end stays silent for it (what a server does afterwards
+            # differs and is not C17's subject, see Device.tla)
+            reqs.append((cfg["hosted"][0], rng.randint(1, 65535), bytes([8, 0, 4, 0, 0])))
         frames = build_frames(kind, reqs)
         fes = (D.STREAM_FES + D.DGRAM_FES) if kind == "tcp" else (D.STREAM_FES + ["syncSerial"])
         split = (k % 3 == 2)           # every third history: arbitrary chunk boundaries, on the stream front-ends only
